@@ -78,8 +78,13 @@ def load_units(prop):
     out = []
     if not os.path.isdir(VERUS_DIR):
         return out
+    en = None
+    if os.path.exists(os.path.join(VERUS_DIR, "ENABLED")):
+        en = set(l.strip() for l in open(os.path.join(VERUS_DIR, "ENABLED")) if l.strip() and not l.startswith("#"))
     for f in sorted(os.listdir(VERUS_DIR)):
         if f.endswith(".rs"):
+            if en is not None and f not in en and not os.environ.get("VERIF_ALL_MODULES"):
+                continue
             u = Unit(os.path.join(VERUS_DIR, f))
             if prop in u.props:
                 out.append(u)
@@ -203,6 +208,12 @@ def render_region(hdr, dirs):
                 raise LostAnchor("anchor not found in fn %s: %s" % (kv["fn"], m.group(1)))
             off = ct[r[0]][2] if m.group(2) == "before" else ct[r[1]][3]
             inserts.append((off, "\n" + payload + "\n"))
+        elif k == "require":
+            # the proof depends on this exact token sequence being present (e.g. a declaration order that a
+            # declared rewrite has spelled out); if it is gone the unit is undecided, never "verified"
+            m = re.match(r'"([^"]*)"', d["arg"])
+            if not rustlex.find_seq(ct, rustlex.norm(m.group(1)), kw, bclose + 1, 1):
+                raise LostAnchor("required token sequence not found in fn %s: %s" % (kv["fn"], m.group(1)))
         elif k in ("hoist", "drop"):
             # local item (enum/struct/fn) moved to module level: Verus has no "internal item statements".
             m = re.match(r'"([^"]*)"', d["arg"])
